@@ -336,7 +336,9 @@ pub fn node_strategy(with_dynamic: bool, fdepth: u32) -> BoxedStrategy<Node> {
             4 => (inner.clone(), inner.clone()).prop_map(|(a, b)| Node::Layered(Box::new(a), Box::new(b))),
             3 => proptest::collection::vec(inner.clone(), 0..4).prop_map(Node::Vec),
             1 => proptest::option::weighted(0.7, inner.clone()).prop_map(|o| Node::Opt(o.map(Box::new))),
-            1 => inner.prop_map(|n| Node::Boxed(Box::new(n))),
+            1 => inner.clone().prop_map(|n| Node::Boxed(Box::new(n))),
+            // an absent subscriber next to a real one inside the tree
+            1 => (inner, any::<bool>()).prop_map(|(n, left)| if left { Node::Layered(Box::new(Node::Opt(None)), Box::new(n)) } else { Node::Layered(Box::new(n), Box::new(Node::Opt(None))) }),
         ]
     })
     .prop_filter("1..=6 leaves", |n| (1..=6).contains(&n.leaves()))
